@@ -911,6 +911,9 @@ static void janet_thread_chan_cb(JanetEVGenericMessage msg) {
                 msg.argp = channel;
                 msg.argj = x;
                 janet_ev_post_event(vm, janet_thread_chan_cb, msg);
+            } else {
+                /* Nobody else is waiting - put the (still packed) value back at the front of the channel */
+                janet_q_push_head(&channel->items, &x, sizeof(Janet));
             }
         } else {
             JanetChannelPending writer;
